@@ -3,12 +3,14 @@ CONSTANTS
   MaxG = 18
   Dpbs = {4, 8}
   ResizeSet = {1, 2, 3, 10, 18}
+  Geos <- OneGeo
   MaxSteps = 2
   DevTuneMasterOnly = FALSE
   DevFsckIgnoresFeatDiff = FALSE
   DevFlushSkipsLast = FALSE
   DevResizeKeepsOldGdt = FALSE
   DevResizeMovesSoleBackup = FALSE
+  DevSearchGuesses8xBs = FALSE
   DevBackupSearchIgnoresSs2 = FALSE
 INVARIANT TypeOK
 INVARIANT InvCurrent
